@@ -170,7 +170,53 @@ class CFG:
         """immediate post-dominators (virtual exit = -1); ipdom[b] is None when it is the exit"""
         n = self.n
         EXIT = n
-        succs = [list(s) if s else [EXIT] for s in self.succs] + [[]]
+        # Early exits do not count: a successor from which every path leaves the function without
+        # branching back (an error return, a panic) is dropped where its sibling goes on, so that
+        # `if err != nil { return err }` inside a conditional does not hide the conditional's join.
+        # An arm that takes such an exit simply never reaches the join and ends on its own.
+        exitonly = [False] * n
+        changed = True
+        while changed:
+            changed = False
+            for b in range(n):
+                if exitonly[b]:
+                    continue
+                ss = self.succs[b]
+                if (not ss) or all(exitonly[x] for x in ss):
+                    if not any(b in body for body in self.loops.values()):
+                        exitonly[b] = True
+                        changed = True
+        self.exitonly = exitonly
+        succs = []
+        dropped = {}
+        for b in range(n):
+            ss = list(self.succs[b])
+            if not ss:
+                succs.append([EXIT])
+                continue
+            keep = [x for x in ss if not exitonly[x]] if os.environ.get('VCGEN_EARLY_EXIT', '1') == '1' else ss
+            if keep and len(keep) < len(ss):
+                dropped[b] = ss
+            succs.append(keep if keep else ss)
+        succs.append([])
+        # the function's own tail is exit-only as well: put an edge back wherever dropping it
+        # leaves a block that cannot reach the exit any more
+        while True:
+            reach = {EXIT}
+            grew = True
+            while grew:
+                grew = False
+                for b in range(n):
+                    if b not in reach and any(x in reach for x in succs[b]):
+                        reach.add(b)
+                        grew = True
+            bad = [b for b in dropped if b not in reach]
+            if not bad:
+                break
+            # the deepest one first (block order follows the source): the others usually reach
+            # the exit through it
+            b = max(bad)
+            succs[b] = dropped.pop(b)
         full = set(range(n + 1))
         pdom = [set(full) for _ in range(n + 1)]
         pdom[EXIT] = {EXIT}
